@@ -403,9 +403,12 @@ namespace GeographicLib {
       drho = ((den != 0 && isfinite(den))
               ? (x*nx + y * (ny - 2*_nrho0)) / den
               : den);
-    drho = fmin(drho, _drhomax);
-    if (_n == 0)
-      drho = fmax(drho, -_drhomax);
+    // Don't use fmin and fmax here, because they would replace a NaN in drho
+    // (from a NaN in x or y) by the limit
+    if (drho > _drhomax)
+      drho = _drhomax;
+    if (_n == 0 && drho < -_drhomax)
+      drho = -_drhomax;
     real
       tnm1 = _t0nm1 + _n * drho/_scale,
       dpsi = (den == 0 ? 0 :
